@@ -370,6 +370,12 @@ impl Out {
       }
     }
     self.viol_count += 1;
+    if let Ok(path) = std::env::var("VERIF_DUMP_VIOLS") {
+      use std::io::Write;
+      if let Ok(mut f) = std::fs::OpenOptions::new().create(true).append(true).open(path) {
+        let _ = writeln!(f, "{}", serde_json::to_string(&json!({"sig": v.signature(), "key": v.key, "input": v.desc, "expected": v.expected, "got": v.got})).unwrap());
+      }
+    }
     // keep the smallest case per signature plus a few more
     let sig = v.signature();
     let same = self.viols.iter().filter(|x| x.signature() == sig).count();
